@@ -29,6 +29,9 @@ Decides:
                     for its own help/version flag: `cmd --version` with a version only on the parent stays the subcommand's failure.
  M depth only grows  State.path is only ever pushed (by ParseCommand::eval).
  R adjacent window   an adjacent command runs its subparser only on the adjacently available run / the consumed block (shared with C19).
+ L help probe    Info::eval evaluates the help parser, then the version parser, on the live state of the level entered, so the flag is consumed by
+                        the subcommand that owns it (shared with C10); R adjacent window: a window that could not be narrowed is refused only when it
+                        really equals the enclosing scope (shared with C19).
 Does not decide: acceptance of whole subcommand lines."""
 import re
 from core import *
@@ -52,6 +55,10 @@ def run(ctx):
         ctx.guard(consumers.forkers, ctx, cfg, fs, 'D.depth')
         import c19
         ctx.guard(keep_only, ctx, lambda: c19.command_window(ctx, cfg, fs), lambda o: True, 'R.scope-restore')
+        # an adjacent command whose window could not be narrowed is only refused when the window really is the whole scope
+        ctx.guard(keep_only, ctx, lambda: c19.adjacent_scope(ctx, cfg, fs), lambda o: 'withheld-only-when-unchanged' in o.key, 'R.scope-restore')
+        # "help requested after the name describes the subcommand": the help/version probes of the level entered consume their flag
+        ctx.guard(keep_only, ctx, lambda: c10.info(ctx, cfg, fs), lambda o: True, 'L.own-level')
         import wiring
         ctx.guard(wiring.builders, ctx, cfg, fs, 'N.name-first', r'^(command|params::<impl info::OptionParser<T>>::command|params::ParseCommand::<P>::(short|long|adjacent|help))$')
         ctx.guard(matched, ctx, cfg, fs)
